@@ -135,16 +135,19 @@ func onlyInt32(t *Ty) bool {
 
 // TypesUpTo enumerates the grammar. Depth 1 is complete. From depth 2 on the unary constructors
 // are applied to every type of the previous depth, and the binary constructors (map, struct,
-// func) get every type of the previous depth in one position and each representative (reps:
-// int32, optionally string) in the other: the stated cap that keeps depth 3 at a few thousand
-// types. A method with a pointer receiver (namedm, the form Wa's own `func T.M()` syntax
+// func) get every type of the previous depth in one position and each representative in the
+// other (int32; at depth 2 also string when nreps is 2): the stated cap that keeps depth 3 at
+// about ten thousand types. A method with a pointer receiver (namedm, the form Wa's own `func T.M()` syntax
 // declares) is added wherever Go allows a receiver; a value receiver (namedv) on the basic types
 // and on the depth-1 types over int32.
 func TypesUpTo(depth int, nreps int) []*Ty {
 	all := append([]*Ty{}, tyBases...)
 	prev := append([]*Ty{}, tyBases...) // types of exactly the previous depth
-	reps := []*Ty{tyBases[0], tyBases[2]}[:nreps]
 	for d := 1; d <= depth; d++ {
+		reps := []*Ty{tyBases[0], tyBases[2]}[:1]
+		if d == 2 {
+			reps = []*Ty{tyBases[0], tyBases[2]}[:nreps]
+		}
 		var cur []*Ty
 		for _, e := range prev {
 			cur = append(cur, mk("ptr", e), mk("slice", e), mk("array", e), mk("named", e))
